@@ -244,6 +244,68 @@ def emitLoops : List (Nat × List String) → Expr → Expr
 def emitProgram (p : Program) : Expr :=
   .bind .id (emitLoops p.order (emitFields (p.order.length + 1) p.fields []))
 
+/-! ### well-formed programs -/
+
+def Leaf.slot' : Leaf → Nat
+  | .plain s _ => s
+  | .lookup s _ _ _ _ => s
+
+/-- every loop hangs below a variable that is already bound -/
+def wfOrder : Nat → List (Nat × List String) → Bool
+  | _, [] => true
+  | n, d :: rest => decide (d.1 < n) && wfOrder (n + 1) rest
+
+def wfFieldsB (n : Nat) (fields : List (String × Spec)) : Bool :=
+  fields.all fun f => !f.2.parts.isEmpty && f.2.parts.all fun p => !p.isEmpty && p.all fun l => decide (l.slot' < n)
+
+/-- what the emitted query needs to compile and to mean what the model says: every loop hangs below an
+earlier variable, every leaf reads an existing loop variable, no field or part is empty -/
+def wfProgram (p : Program) : Bool :=
+  wfOrder 1 p.order && wfFieldsB (p.order.length + 1) p.fields
+
+/-! ### the query as text (variable names as in the source), compared with the real compiler's output -/
+
+def varName (v : Nat) : String := "$var" ++ toString v
+
+/-- `build_base_variable_jq_query`: the loop variables in depth-first order of the trie -/
+def emitBaseText (t : Trie) : String :=
+  let orderVars := Trie.dfs t (t.length + 1) 0
+  orderVars.foldl (fun acc v =>
+    let d := t.getD (v - 1) (0, "")
+    let insert := if d.2 == "" then "" else d.2 ++ "."
+    acc ++ " | (try " ++ varName d.1 ++ "." ++ insert ++ "[] catch null) as " ++ varName v) (". as " ++ varName 0)
+
+/-- the bound expression of one alternative (`get_jq_for_field_spec`, inner loop) -/
+def emitLeafText : Leaf → String
+  | .plain v p => "(try " ++ varName v ++ "." ++ ".".intercalate p ++ " catch null)"
+  | .lookup v a k vp kv =>
+    "(try ([" ++ varName v ++ "." ++ ".".intercalate a ++ ".[] | select(try ." ++ ".".intercalate k ++
+      ") | {(." ++ ".".intercalate k ++ "): ." ++ ".".intercalate vp ++ "}] | add | .\"" ++ kv ++ "\") catch null)"
+
+def emitJoinText (isArray : Bool) (names : List (List String)) : String :=
+  if isArray then
+    "(" ++ " + ".intercalate (names.map fun ns => "[" ++ "//".intercalate ns ++ "]") ++
+      ") | flatten | (if (. | all(. == null)) and . != [] then null else . end)"
+  else
+    "([" ++ ",".intercalate (names.map fun ns =>
+        "(" ++ " // ".intercalate ns ++ " | (if . == null then null else (. | tostring) end))") ++
+      "] | if any(. == null) then null else join(\"_\") end)"
+
+/-- ` | … as $outIconcatPJ … | (…) as $outI` for field number `i` -/
+def emitFieldText (i : Nat) (s : Spec) : String :=
+  let out := "$out" ++ toString i
+  let named : List (List (String × Leaf)) := s.parts.zipIdx.map fun (alts, pi) =>
+    alts.zipIdx.map fun (l, j) => (out ++ "concat" ++ toString pi ++ toString j, l)
+  let binds := named.flatten.foldl (fun acc (nm, l) => acc ++ " | " ++ emitLeafText l ++ " as " ++ nm) ""
+  binds ++ " | (" ++ emitJoinText s.isArray (named.map (·.map (·.1))) ++ ") as " ++ out
+
+/-- `jq_field_mapping_to_jq_query` on the normalised mapping -/
+def emitText (m : List (String × FieldSpecN)) : String :=
+  let (t, fs) := compileFields [] m
+  emitBaseText t ++
+    String.join (fs.zipIdx.map fun ((_, s), i) => emitFieldText i s) ++
+    " | {" ++ ",".intercalate (fs.zipIdx.map fun ((n, _), i) => " \"" ++ n ++ "\": $out" ++ toString i) ++ "}"
+
 /-- run a query on a document -/
 def runQuery (e : Expr) (doc : Json) : Res := eval e [] doc
 
